@@ -178,7 +178,9 @@ def definite(lp, f):
         return False
     if kind in ("func", "wrapped", "inner"):
         return True
-    if kind == "sproperty":
+    if kind in ("sproperty", "cproperty"):
+        # settable properties and functools.cached_property are outside what the tracer's lookup resolves by design
+        # (only django's cached_property is special-cased): unknown resolvability - at most one faithful trace
         return False
     cls = next(c for c in lp.spec["classes"] if c["name"] == f["cls"])
     nested = bool(cls.get("outer"))
